@@ -13,14 +13,14 @@ var propOrder = []string{"C01", "C02", "C03", "C04", "C05", "C06", "C07", "C08",
 
 var props = map[string]*PropDef{
 	"C01": {
-		Rules:      []string{"MATRIX", "KIND-1", "DEPTH-1", "MAPCACHE-1", "TXN-1", "CASE-SYM", "NUMSTATE-1", "TXN-2", "TXN-3", "PAIR-1", "FULL-1", "SURR-1", "EOF-1"},
+		Rules:      []string{"MATRIX", "KIND-1", "DEPTH-1", "MAPCACHE-1", "TXN-1", "CASE-SYM", "NUMSTATE-1", "TXN-2", "TXN-3", "PAIR-1", "FULL-1", "SURR-1", "EOF-1", "CTRL-1"},
 		Decided:    "the sibling recognisers (token path, value path, raw-value path) agree on which checks exist and which option controls them (duplicate names under exactly AllowDuplicateNames, UTF-8 validation unless exactly AllowInvalidUTF8, string-only names, exhaustive kind dispatch with failing defaults, the RFC 8259 start-byte table); the depth limit is the same in all six guards and each guard is evaluated on every path; io.EOF is only produced at depth 1; the duplicate-name set stays complete when it switches to a map; hexadecimal/exponent letters are matched case-insensitively; the resumable number scanner's resume states match what it consumed. Also: name namespaces are pushed and popped in balance and never mutated on a rejected ReadToken/ReadValue; a two-byte marker such as \\u is matched with a consistent ==&&== / !=||!= test; scanner validators' consumed length is never discarded; utf16.DecodeRune's verdict is checked; io.EOF is only produced at depth 1 on an identity test with the scanner's own sentinel.",
 		NotDecided: "that each lexical recogniser accepts exactly its RFC production (index arithmetic of ConsumeString/ConsumeNumber beyond the structural facts above).",
 		Technique:  "sibling-implementation matrix over type-checked syntax; constant/table evaluation; path-sensitive go/cfg dataflow for guards",
 	},
 	"C02": {
-		Rules:      []string{"FP-1", "FP-2", "FP-3", "FP-4", "STALE-3", "NS-2", "SINK-1", "USER-1", "USER-2", "ERR-1", "TABLE-ESC", "PANIC-1", "NS-3", "UNWRITE-3"},
-		Decided:    "the marshal fast paths that write the encoder buffer directly obey the protocol that keeps their output grammatical (store/Increment pairing, position and whitespace guards, delimiter construction, flush delivery, no foreign write while a buffer alias is pending); bytes produced by user code are always re-validated and user calls that receive the encoder are bracketed by the one-value check; encoder namespaces are only disabled where names are unique by construction; bytes that bypass string validation come from reviewed ASCII-safe producers; no coder/arshaler error is dropped; explicit panics are classified. After a failed nested marshal the disabled namespaces of every stack level are invalidated.",
+		Rules:      []string{"FP-1", "FP-2", "FP-3", "FP-4", "STALE-3", "NS-2", "SINK-1", "USER-1", "USER-2", "ERR-1", "TABLE-ESC", "PANIC-1", "NS-3", "UNWRITE-3", "PREC-1", "NS-4", "UNSUP-1"},
+		Decided:    "the marshal fast paths that write the encoder buffer directly obey the protocol that keeps their output grammatical (store/Increment pairing, position and whitespace guards, delimiter construction, flush delivery, no foreign write while a buffer alias is pending); bytes produced by user code are always re-validated and user calls that receive the encoder are bracketed by the one-value check; encoder namespaces are only disabled where names are unique by construction; bytes that bypass string validation come from reviewed ASCII-safe producers; no coder/arshaler error is dropped; explicit panics are classified. After a failed nested marshal the disabled namespaces of every stack level are invalidated. Taking back an empty member (omitempty) trims separators unconditionally, whatever option wrote them.",
 		NotDecided: "validity of what strconv/time/base64 append; absence of implicit panics (index, nil); correctness of WriteToken/WriteValue themselves (C06).",
 		Technique:  "path-sensitive go/cfg dataflow over finite atoms; guard dominance; sink/producer audit",
 	},
@@ -32,7 +32,7 @@ var props = map[string]*PropDef{
 	},
 	"C04": {
 		Rules:      []string{"CODEC-1", "FLAGSYM-1", "ALIAS-1", "FIELD-1", "POOL-2", "FLAGMASK-1", "FLAGPAIR-1", "NUMWIDTH-1"},
-		Decided:    "writer and reader tables agree for every alternative representation: identical accepted format strings, each base16/32/64 encode/decode/len triple bound to one encoding and chosen consistently, same default encoding, same initFormat and base cases for time/duration, same bit size for formatting and parsing; marshal and unmarshal siblings consult the same two-sided options; struct field index paths are not aliased. A block entered under Flags.Has(mask) consults only flags of that mask and marshal/unmarshal siblings test the same masks; pooled namespace state is reset unconditionally.",
+		Decided:    "writer and reader tables agree for every alternative representation: identical accepted format strings, each base16/32/64 encode/decode/len triple bound to one encoding and chosen consistently, same default encoding, same initFormat and base cases for time/duration, same bit size for formatting and parsing; marshal and unmarshal siblings consult the same two-sided options; struct field index paths are not aliased. A block entered under Flags.Has(mask) consults only flags of that mask and marshal/unmarshal siblings test the same masks; pooled namespace state is reset unconditionally. Conversions use the type's width in both directions.",
 		NotDecided: "value equality after a round trip, float bits, time arithmetic (all arithmetic on runtime values).",
 		Technique:  "sibling agreement between marshal/unmarshal closures; table evaluation",
 	},
@@ -43,7 +43,7 @@ var props = map[string]*PropDef{
 		Technique:  "path-sensitive go/cfg dataflow with inter-procedural taint (positions/aliases) and recomputed effect summaries",
 	},
 	"C06": {
-		Rules:      []string{"TXN-1", "TXN-2", "TXN-3", "MATRIX", "DEPTH-1", "KIND-1", "OPT-5", "WS-1", "POOL-2", "NS-3"},
+		Rules:      []string{"TXN-1", "TXN-2", "TXN-3", "MATRIX", "DEPTH-1", "KIND-1", "OPT-5", "WS-1", "POOL-2", "NS-3", "NS-4", "VERB-1"},
 		Decided:    "a rejected WriteToken/WriteValue/AppendRaw leaves the abstract encoder state untouched on every feasible path (commit protocol), the state machine and the namespace set are transactional, scratch namespaces are balanced; the encoder columns of the recogniser matrix hold (duplicate names, UTF-8, string-only names, exhaustive dispatch, depth limit); tag flags are cleared on descent; token path and value path emit separators and whitespace in the same order. Disabled namespaces are invalidated at every level after a failure; every field of a pooled coder's sub-structures is reset unconditionally.",
 		NotDecided: "that the accepted token sequences are exactly the grammar's prefixes; byte-for-byte formatting of every option combination.",
 		Technique:  "path-sensitive go/cfg dataflow (atoms: mutated, error nil-ness, namespace validity, name position) with recomputed effect summaries; sibling matrix",
@@ -55,14 +55,14 @@ var props = map[string]*PropDef{
 		Technique:  "path-sensitive go/cfg dataflow; table agreement",
 	},
 	"C08": {
-		Rules:      []string{"NS-1", "NS-2", "NS-3", "MATRIX", "MAPCACHE-1", "TXN-1", "MERGE-1", "POOL-2", "TXN-2", "TXN-3", "FP-2", "VERB-1"},
-		Decided:    "every place that switches the coder's duplicate check off tracks names another way (struct seen-set, map key presence plus seen-set for pre-populated maps, untyped map), under no option other than AllowDuplicateNames; unknown/fallback members are inserted into the namespace before being skipped; encoder namespaces are only disabled for key kinds with a unique representation and no custom key marshaler; disabled namespaces are invalidated after a failed top-level call; all recogniser paths check duplicates and UTF-8 under exactly their option; the namespace's map cache stays complete. Namespaces are balanced and untouched by rejected calls; the struct member-name fast path is only reachable with the namespace disabled and unique names by construction.",
+		Rules:      []string{"NS-1", "NS-2", "NS-3", "MATRIX", "MAPCACHE-1", "TXN-1", "MERGE-1", "POOL-2", "TXN-2", "TXN-3", "FP-2", "VERB-1", "PREC-1", "NS-4"},
+		Decided:    "every place that switches the coder's duplicate check off tracks names another way (struct seen-set, map key presence plus seen-set for pre-populated maps, untyped map), under no option other than AllowDuplicateNames; unknown/fallback members are inserted into the namespace before being skipped; encoder namespaces are only disabled for key kinds with a unique representation and no custom key marshaler; disabled namespaces are invalidated after a failed top-level call; all recogniser paths check duplicates and UTF-8 under exactly their option; the namespace's map cache stays complete. Namespaces are balanced and untouched by rejected calls; the struct member-name fast path is only reachable with the namespace disabled and unique names by construction. Names taken verbatim for the duplicate check come from the scanner's verdict on the same bytes.",
 		NotDecided: "later-wins/merge results under AllowDuplicateNames; equality after unescaping itself.",
 		Technique:  "guard dominance; path-sensitive go/cfg dataflow; sibling matrix",
 	},
 	"C09": {
-		Rules:      []string{"V1-1", "V1-2", "V1-3", "V1-4", "OPT-1", "FLAGSYM-1", "ADDR-1", "FULL-1", "FLAGPAIR-1", "DEADFIELD-1", "NUMWIDTH-1"},
-		Decided:    "every entry from v1 into the v2 API runs under DefaultOptionsV1 (or the explicit legacy set for the syntax-only helpers) and coder option fields are only extended; each v1 default flag has a constructor and is read by the implementation; under legacy error semantics the next value is syntax-checked before the target is touched; the streaming Decoder's offset flags are reset together; the v1 constants are consistent; marshal/unmarshal honour the two-sided legacy options symmetrically. The forcedAddr bit of every addressableValue matches its provenance (scratch copy / dereferenced pointer / part of parent), which is what v1's method-calling rules depend on; a scanner used as validator covers the whole input.",
+		Rules:      []string{"V1-1", "V1-2", "V1-3", "V1-4", "OPT-1", "FLAGSYM-1", "ADDR-1", "FULL-1", "FLAGPAIR-1", "DEADFIELD-1", "NUMWIDTH-1", "V1-5"},
+		Decided:    "every entry from v1 into the v2 API runs under DefaultOptionsV1 (or the explicit legacy set for the syntax-only helpers) and coder option fields are only extended; each v1 default flag has a constructor and is read by the implementation; under legacy error semantics the next value is syntax-checked before the target is touched; the streaming Decoder's offset flags are reset together; the v1 constants are consistent; marshal/unmarshal honour the two-sided legacy options symmetrically. The forcedAddr bit of every addressableValue matches its provenance (scratch copy / dereferenced pointer / part of parent), which is what v1's method-calling rules depend on; a scanner used as validator covers the whole input. The legacy pre-validation is given unmarshalDecode's own `last` flag; flags required together are never tested with one masked Get; conversions use the type's width; no latch field (v1 Encoder's sticky error) is left unwritten.",
 		NotDecided: "behavioural equality with the toolchain's encoding/json (a comparison of executions; static analysis of one side says nothing about the other), e.g. the indentation placeholder arithmetic of v1.Indent.",
 		Technique:  "provenance of option arguments; sibling agreement; path-sensitive must-precede",
 	},
@@ -73,20 +73,20 @@ var props = map[string]*PropDef{
 		Technique:  "type-resolved call-site enumeration with argument provenance",
 	},
 	"C11": {
-		Rules:      []string{"TABLE-ESC", "SINK-1", "MATRIX", "OPT-1", "WIDTH-1", "CASE-SYM", "VERB-1", "PAIR-1", "SURR-1", "INDEX-1", "ESCSET-1"},
+		Rules:      []string{"TABLE-ESC", "SINK-1", "MATRIX", "OPT-1", "WIDTH-1", "CASE-SYM", "VERB-1", "PAIR-1", "SURR-1", "INDEX-1", "ESCSET-1", "CTRL-1"},
 		Decided:    "the safety clause (no raw < > & / U+2028 U+2029 under the escape options) as a sink audit: the escape table and the quoting code agree, exactly {<,>,&} depend on EscapeForHTML and {U+2028,U+2029} on EscapeForJS in every quoting path, verbatim copies happen only under !AnyEscape, bytes that skip validation come from reviewed producers, pre-quoted names are emitted only when they need no escaping, every AppendQuote on an output path receives the real flags, index arithmetic follows the rune width. Strings are only taken verbatim on the scanner's verdict about the same bytes; two-byte markers are tested consistently; surrogate pairs are combined only on utf16.DecodeRune's verdict.",
 		NotDecided: "losslessness, minimality, one-U+FFFD-per-byte (value-level).",
 		Technique:  "table evaluation; sink/producer audit; guard-set extraction",
 	},
 	"C12": {
-		Rules:      []string{"FORMAT-1", "WIDTH-1", "TABLE-ESC", "TXN-2", "DEPTH-1", "WS-1", "MATRIX", "POOL-1", "POOL-3", "ESCSET-1"},
+		Rules:      []string{"FORMAT-1", "WIDTH-1", "TABLE-ESC", "TXN-2", "DEPTH-1", "WS-1", "MATRIX", "POOL-1", "POOL-3", "ESCSET-1", "CTRL-1"},
 		Decided:    "Value.format/AppendFormat store or append the result only after WriteValue succeeded (src unchanged on error, no rewrite when identical); the presets pass exactly their documented options before the caller's; reformat* only appends slices of the source, structural constants, indentation and the output of ReformatString/ReformatNumber, with verbatim copies guarded by the simple scanners; the raw-value path applies the same duplicate/UTF-8/depth checks as the other recognisers; a rejected WriteValue appends nothing; the scratch encoder is pooled correctly and its buffer is copied out.",
 		NotDecided: "semantic equality of input and output, fixed-point property (value-level).",
 		Technique:  "path-sensitive go/cfg dataflow; append-source audit; sibling matrix",
 	},
 	"C13": {
-		Rules:      []string{"FORMAT-1", "ESCSET-1", "CASE-SYM"},
-		Decided:    "the Canonicalize preset, the reorder hook for objects and arrays under ReorderRawObjects, the number shortcut guard, and that every member comparison used for reordering (the already-sorted test and the sort) is objectMember.Compare, which orders names with CompareUTF16. The verbatim number copy in ReformatNumber is decided by a length test on the number of bytes copied.",
+		Rules:      []string{"FORMAT-1", "ESCSET-1", "CASE-SYM", "CTRL-1"},
+		Decided:    "the Canonicalize preset, the reorder hook for objects and arrays under ReorderRawObjects, the number shortcut guard, and that every member comparison used for reordering (the already-sorted test and the sort) is objectMember.Compare, which orders names with CompareUTF16. The verbatim number copy in ReformatNumber is decided by a length test on the number of bytes copied. The scanner's set of control characters with a mandatory short escape equals the encoder's.",
 		NotDecided: "the UTF-16 ordering computed by CompareUTF16 and the ES6 number spelling themselves (value-level).",
 		Technique:  "structural wiring checks",
 	},
@@ -97,19 +97,19 @@ var props = map[string]*PropDef{
 		Technique:  "structural checks and path-sensitive must-follow",
 	},
 	"C15": {
-		Rules:      []string{"FIELD-1", "ALIAS-1", "UNWRITE-2", "UNWRITE-1", "MONO-1", "UNWRITE-3"},
+		Rules:      []string{"FIELD-1", "ALIAS-1", "UNWRITE-2", "UNWRITE-1", "MONO-1", "UNWRITE-3", "PREC-1"},
 		Decided:    "each tag option is consumed where documented (omitzero/omitempty/string/format/casing/embed), the dominance sort compares name, depth, explicit-name in that order and keeps only dominant fields, emitted order is declaration order, the unmarshal closure prefers the exact-name index, reports ambiguity and limits ErrUnknownName to RejectUnknownMembers without a fallback, matchFoldedName implements the documented casing rules, field index paths are not aliased. avoidFlush keeps everything omitempty may need to take back in the buffer (truth table); a local initialised from an arshaler's nonDefault only grows.",
 		NotDecided: "the breadth-first search over runtime type graphs and the folding function itself.",
 		Technique:  "structural checks over type-checked syntax",
 	},
 	"C16": {
 		Rules:      []string{"STALE-1", "TXN-2", "NAMES-1", "BUF-1", "FP-2", "PTR-1", "PTR-2", "POS-1", "POISON-1", "EOF-1", "INDEX-1"},
-		Decided:    "names used in error pointers are never stale buffer aliases; a rejected call changes no pointer/offset; names are copied out before buffers move and before pointers are built; offset bookkeeping of fetch/Flush; the struct fast path records the name offset; pointer escaping is applied exactly once and the reader/writer escape tables are inverse in RFC 6901 order; after-value errors are only built after a value was consumed. A clean EOF only at depth 1; the poison byte is undone for every copied name.",
+		Decided:    "names used in error pointers are never stale buffer aliases; a rejected call changes no pointer/offset; names are copied out before buffers move and before pointers are built; offset bookkeeping of fetch/Flush; the struct fast path records the name offset; pointer escaping is applied exactly once and the reader/writer escape tables are inverse in RFC 6901 order; after-value errors are only built after a value was consumed. A clean EOF only at depth 1; the poison byte is undone for every copied name. No Index* result is compared with `> 0`.",
 		NotDecided: "that appendStackPointer computes the right pointer for each `where`; the offset arithmetic (pos-n, legacy +len(What)).",
 		Technique:  "path-sensitive go/cfg dataflow; table inversion; append-source audit",
 	},
 	"C17": {
-		Rules:      []string{"PREC-1", "USER-1", "USER-2", "ERR-1", "ANYPATH-1", "ADDR-1", "MONO-1", "PUBLISH-1", "WITHIN-1"},
+		Rules:      []string{"PREC-1", "USER-1", "USER-2", "ERR-1", "ANYPATH-1", "ADDR-1", "MONO-1", "PUBLISH-1", "WITHIN-1", "UNSUP-1"},
 		Decided:    "method wrappers are installed in the documented precedence order, each falling back to the composition captured right before it; no methods on pointer/interface kinds; default, methods, time are composed in that order; caller functions are scanned in list order with ErrUnsupported fall-through and are consulted at every dispatch; bytes from user code are re-validated; user calls that receive the coder are bracketed by WithinArshalCall and the one-value check, with the ErrUnsupported fall-through only when nothing was touched; the any fast paths respect any-applicable caller functions. forcedAddr provenance (pointer-receiver methods on addressable and non-addressable values); nonDefault only grows; a cached arshaler is complete before it is published.",
 		NotDecided: "which method actually runs for a given value (reflection over runtime types).",
 		Technique:  "structural ordering checks; bracket rule; path-sensitive consult-before-dispatch",
@@ -121,14 +121,14 @@ var props = map[string]*PropDef{
 		Technique:  "pairing/escape rules over type-checked syntax; path-sensitive dominance",
 	},
 	"C19": {
-		Rules:      []string{"OPT-1", "OPT-2", "OPT-3", "OPT-4", "OPT-5", "OPT-6", "OPT-7", "V1-1", "GLOBAL-1", "FLAGMASK-1", "FLAGPAIR-1"},
+		Rules:      []string{"OPT-1", "OPT-2", "OPT-3", "OPT-4", "OPT-5", "OPT-6", "OPT-7", "V1-1", "GLOBAL-1", "FLAGMASK-1", "FLAGPAIR-1", "V1-5"},
 		Decided:    "the flag constants form a consistent bit algebra with the documented v1 defaults; every boolean option constructor is injective and value-faithful; Join and GetOption agree on which flag guards which value field (including the nested *Struct case and the json-injected options); per-call options are saved and restored by defer before any mutation; struct-tag options are restored on every path; one-sided options are only read on their side; v1 entry points pass DefaultOptionsV1; the shared default option sets are never mutated. JoinOptions returns a fresh value; GetOption's boolean case returns the stored value whenever the option may be present; Has-masks cover the flags consulted under them.",
 		NotDecided: "the bit arithmetic of Flags.Join/Set/Get/Clear themselves (five-line bodies; their correctness is arithmetic).",
 		Technique:  "constant-table evaluation; path-sensitive check of constructors and scoping; sibling agreement of type switches",
 	},
 	"C20": {
 		Rules:      []string{"DEPTH-1", "CYCLE-1", "PANIC-1", "TXN-1", "TXN-2", "NAMES-1", "PEEK-1", "ERR-1", "WITHIN-1", "MERGE-1"},
-		Decided:    "the nesting limit is the same (off-by-one included) in all six guards and every guard is evaluated on every path of its function; every marshal recursion either pushes a container first or has a depth-independent cycle check, with visit/leave paired; explicit panics are classified and no function gained panic sites; the state/name bookkeeping whose violation leads to panics (rejected calls, names copied before buffers move) holds. No coder error is dropped (a loop that ignores a failing SkipValue never terminates); the peek cache is consumed exactly once.",
+		Decided:    "the nesting limit is the same (off-by-one included) in all six guards and every guard is evaluated on every path of its function; every marshal recursion either pushes a container first or has a depth-independent cycle check, with visit/leave paired; explicit panics are classified and no function gained panic sites; the state/name bookkeeping whose violation leads to panics (rejected calls, names copied before buffers move) holds. No coder error is dropped (a loop that ignores a failing SkipValue never terminates); the peek cache is consumed exactly once. The `inside a user call` mark is removed on every path; a map key of interface type is only used after its dynamic type was found comparable.",
 		NotDecided: "implicit panics (index, nil dereference); termination in general (e.g. fetch retries while a reader returns (0, nil)).",
 		Technique:  "path-sensitive go/cfg dataflow; recursion-progress analysis over marshal closures; classified site table",
 	},
